@@ -390,6 +390,7 @@ func c03IndexCommand(c *Ctx, sx *symx.Ctx, F []string) {
 			tagList[tag] = l.Over
 		})
 	}
+	helperLen := map[*ssa.Call]ssa.Value{} // counting-helper call -> the list whose length it returns
 	// the helper form: counts.add(tokens, func(e *fieldTF) *int { return &e.<field> })
 	// where add ranges over its list parameter and increments *pick(&entry)
 	// between entry := m[tok] and m[tok] = entry
@@ -405,6 +406,40 @@ func c03IndexCommand(c *Ctx, sx *symx.Ctx, F []string) {
 		li, pi := c03CountsThroughPick(cal)
 		args := call.Common().Args
 		if li < 0 {
+			// ... or to a method of the entry that switches on a field tag
+			if tl, ti, meth := c03CountsThroughTagMethod(cal); tl >= 0 {
+				tbl := c03TagMethodTable(meth)
+				k, isC := args[ti].(*ssa.Const)
+				if tbl == nil || !isC || k.Value == nil {
+					r.Bad("O-2", fk+"#tag-method", c.P.Pos(call.Pos()), "the field tag handed to the counting helper is not a constant, or the method it selects with does something else than incrementing one field per tag")
+					return
+				}
+				tag, known := tbl[k.Value.ExactString()]
+				if !known {
+					r.Bad("O-2", fk+"#tag:"+k.Value.ExactString()+":unknown", c.P.Pos(call.Pos()), "tokens are counted under a tag for which the entry's method increments nothing: they are silently dropped")
+					return
+				}
+				if prev, dup := tagList[tag]; dup && prev != args[tl] {
+					r.Bad("O-2", fk+"#tag:"+tag+":once", c.P.Pos(call.Pos()), "two different token lists are counted under the field "+tag)
+				}
+				tagList[tag] = args[tl]
+				// the helper hands back the length of the list it counted
+				lenOfList := true
+				for _, ret := range ssau.ReturnsOf(cal) {
+					if len(ret.Results) != 1 {
+						lenOfList = false
+						continue
+					}
+					lc, ok := ret.Results[0].(*ssa.Call)
+					if !ok || ssau.CallName(lc) != "builtin.len" || lc.Common().Args[0] != ssa.Value(cal.Params[tl]) {
+						lenOfList = false
+					}
+				}
+				if lenOfList {
+					helperLen[call] = args[tl]
+				}
+				return
+			}
 			// ... or hands the entry to a function that increments one field
 			bl, bi := c03CountsThroughBump(cal)
 			if bl < 0 {
@@ -444,6 +479,8 @@ func c03IndexCommand(c *Ctx, sx *symx.Ctx, F []string) {
 		}
 		if lc, ok := st.Val.(*ssa.Call); ok && ssau.CallName(lc) == "builtin.len" {
 			lenList[ssau.FieldName(fa)] = lc.Common().Args[0]
+		} else if hc, ok := st.Val.(*ssa.Call); ok && helperLen[hc] != nil {
+			lenList[ssau.FieldName(fa)] = helperLen[hc]
 		} else {
 			r.Bad("O-2", fk+"#len:"+ssau.FieldName(fa), c.P.Pos(st.Pos()), "document length "+ssau.FieldName(fa)+" is not len of a token list")
 		}
@@ -1872,6 +1909,137 @@ func c03BumpedField(v ssa.Value) string {
 		return ""
 	}
 	return name
+}
+
+// c03CountsThroughTagMethod: fn ranges over its list parameter #li and, per
+// element, reads the entry of a map of fieldTF under the element, calls a
+// method of fieldTF on its address with the parameter #ti of fn, and stores
+// the entry back under the same element; the method.
+func c03CountsThroughTagMethod(fn *ssa.Function) (li, ti int, meth *ssa.Function) {
+	li, ti = -1, -1
+	paramIdx := func(v ssa.Value) int {
+		for i, p := range fn.Params {
+			if ssa.Value(p) == v {
+				return i
+			}
+		}
+		return -1
+	}
+	for _, l := range ssau.RangeLoops(fn) {
+		if l.IsMap || l.Over == nil || paramIdx(l.Over) < 0 {
+			continue
+		}
+		isElem := func(v ssa.Value) bool {
+			u, ok := v.(*ssa.UnOp)
+			if !ok {
+				return false
+			}
+			ia, ok := u.X.(*ssa.IndexAddr)
+			return ok && ia.X == l.Over && ia.Index == l.Index
+		}
+		ssau.ForEachInstr(fn, false, func(in ssa.Instruction) {
+			mc, ok := in.(*ssa.Call)
+			if !ok || mc.Block() != l.Body || len(mc.Common().Args) != 2 {
+				return
+			}
+			g := mc.Common().StaticCallee()
+			if g == nil || g.Signature.Recv() == nil || ssau.NamedOf(g.Signature.Recv().Type()) != dbPkg+".fieldTF" || paramIdx(mc.Common().Args[1]) < 0 {
+				return
+			}
+			cell, ok := mc.Common().Args[0].(*ssa.Alloc)
+			if !ok {
+				return
+			}
+			readOK, writeOK, other := false, false, false
+			for _, ref := range *cell.Referrers() {
+				switch x := ref.(type) {
+				case *ssa.Store:
+					if x.Addr == ssa.Value(cell) {
+						if lk, ok := x.Val.(*ssa.Lookup); ok && isElem(lk.Index) && x.Block() == mc.Block() {
+							readOK = true
+						} else {
+							other = true
+						}
+					}
+				case *ssa.UnOp:
+					for _, r2 := range *x.Referrers() {
+						if mu, ok := r2.(*ssa.MapUpdate); ok && mu.Value == ssa.Value(x) && isElem(mu.Key) && mu.Block() == mc.Block() {
+							writeOK = true
+						}
+					}
+				case *ssa.Call:
+					if x != mc {
+						other = true
+					}
+				case *ssa.FieldAddr:
+					other = true
+				}
+			}
+			if readOK && writeOK && !other {
+				li, ti, meth = paramIdx(l.Over), paramIdx(mc.Common().Args[1]), g
+			}
+		})
+	}
+	return
+}
+
+// c03TagMethodTable: meth is a method of *fieldTF that switches on its
+// (integer or string) parameter and, under each constant, increments exactly
+// one field of the receiver; constant (as written in SSA) -> field name.
+func c03TagMethodTable(meth *ssa.Function) map[string]string {
+	if meth == nil || len(meth.Params) != 2 {
+		return nil
+	}
+	out := map[string]string{}
+	for _, iff := range ssau.Ifs(meth) {
+		op, x, y, ok := ssau.CondOf(iff.Cond)
+		if !ok || op != token.EQL {
+			continue
+		}
+		kv := y
+		if x != ssa.Value(meth.Params[1]) {
+			if y != ssa.Value(meth.Params[1]) {
+				continue
+			}
+			kv = x
+		}
+		k, isC := kv.(*ssa.Const)
+		if !isC || k.Value == nil {
+			continue
+		}
+		tb := iff.Block().Succs[0]
+		var incd []string
+		for _, in := range tb.Instrs {
+			st, ok := in.(*ssa.Store)
+			if !ok {
+				continue
+			}
+			fa, ok := st.Addr.(*ssa.FieldAddr)
+			if !ok || fa.X != ssa.Value(meth.Params[0]) {
+				continue
+			}
+			if bo, ok := st.Val.(*ssa.BinOp); ok && bo.Op == token.ADD {
+				if one, ok := ssau.ConstInt(bo.Y); ok && one == 1 {
+					incd = append(incd, ssau.FieldName(fa))
+				}
+			}
+		}
+		if len(incd) != 1 {
+			return nil
+		}
+		out[k.Value.ExactString()] = incd[0]
+	}
+	// nothing else is written
+	nStores := 0
+	ssau.ForEachInstr(meth, false, func(in ssa.Instruction) {
+		if _, ok := in.(*ssa.Store); ok {
+			nStores++
+		}
+	})
+	if nStores != len(out) {
+		return nil
+	}
+	return out
 }
 
 // c03PickedField: v is a function (literal) whose every result is the
